@@ -430,3 +430,19 @@ func M_wait_PollUntilContextTimeout(ctx context.Context, interval, timeout time.
 	_, err := condition(ctx)
 	return err
 }
+
+var errWaitTimeout = errors.New("timed out waiting for the condition (model)")
+
+// M_wait_ExponentialBackoffWithContext: the condition is probed at most twice.
+func M_wait_ExponentialBackoffWithContext(ctx context.Context, backoff any, condition func(context.Context) (bool, error)) error {
+	for i := 0; i < 2; i++ {
+		ok, err := condition(ctx)
+		if err != nil {
+			return err
+		}
+		if ok {
+			return nil
+		}
+	}
+	return errWaitTimeout
+}
